@@ -95,6 +95,8 @@ pub fn trees(thorough: bool) -> Vec<TreeSpec> {
             v.push(s);
         }
     }
+    // names and link bodies that are not valid UTF-8 (raw bytes travel as private-use characters, see proto::dec_path)
+    v.push(TreeSpec::default().dir("d\u{E0E9}").file("d\u{E0E9}/f\u{E0FF}").link("a", "d\u{E0E9}/f\u{E0FF}").link("b", "/d\u{E0E9}/../x\u{E080}").file("x\u{E080}"));
     v.sort_by_key(|t| (t.0.len(), t.text()));
     v.dedup();
     v
@@ -131,6 +133,7 @@ pub fn paths(maxlen: usize, thorough: bool) -> Vec<String> {
         if thorough { v.push(format!("/{}/", j)); v.push(format!("{}/.", j)); }
     }
     for sp in ["", "/", "//", "a//a", "a//", "//a", "/./a", "a/./b", "a///..//b", "./", "../", "/..", "/../"] { v.push(sp.to_string()); }
+    for sp in ["d\u{E0E9}/f\u{E0FF}", "d\u{E0E9}/../b", "x\u{E080}/", "d\u{E0E9}/f\u{E0FF}/..", "x\u{E081}"] { v.push(sp.to_string()); }
     v.push("a".repeat(255));
     v.push("a".repeat(256));
     v.push(format!("a/{}", "b".repeat(256)));
